@@ -391,6 +391,12 @@ class Pipeline():
                 steps_runner.run_failure_step_group(failure_group)
             except StopStepGroup:
                 pass
+            except StopPipeline:
+                # stoppipeline ends this pipeline only, same as when the
+                # failure handler runs because a step failed. Don't let it
+                # escape to end the parent pipeline that pyped this one.
+                logger.debug("StopPipeline: stopped %s", self.name)
+                return
 
             logger.debug("Raising original exception to caller.")
             raise
